@@ -75,12 +75,13 @@ def h_converse(L, parts):
 
 
 def queries(tier):
-    th = tier == 'thorough'
+    deep = 1 if tier == 'thorough' else 0      # the former thorough bounds are the quick bounds now
+    th = True
     qs = []
     for prog in PROGS:
         for v in NAMES:
             qs.append(Query('%s agree %s' % (prog, v), h_agree, {'variant': v}, bound='all 2^len letter-case variants of %s (one symbolic mask)' % NAMES[v], prog=prog))
-    for n in lens(7 if th else 6):
+    for n in lens(7 + deep):
         qs.append(Query('converse ⟦%d⟧' % n, h_converse, {'parts': [('hole', 'h', n)]}, bound='every valid-UTF-8 string of %d bytes' % n))
     # near misses and look-alikes around every name: one free scalar value inserted / substituted / appended
     for nm in NAMES.values():
